@@ -8,6 +8,7 @@ import (
 	"math/rand"
 	"os"
 	"path/filepath"
+	"strings"
 	"sync"
 	"time"
 
@@ -32,7 +33,10 @@ type schedCase struct {
 	Sched   [][]json.RawMessage `json:"sched"`
 	Results [][]json.RawMessage `json:"results"`
 	Reqs    []int               `json:"reqs"`
+	Parts   []int               `json:"parts"`
 	Failed  []int               `json:"failed"`
+	Size    int                 `json:"size"`  // bytes of arguments of the sized request (0: chosen from the matrix by the case's hash)
+	Chunk   int                 `json:"chunk"` // output chunk size announced before the first request (0: chosen likewise)
 }
 
 type outcome struct {
@@ -50,9 +54,52 @@ func tidOfResult(payload []byte) float64 {
 	return math.Float64frombits(binary.BigEndian.Uint64(payload[11:19]))
 }
 
-func request(t int) rtmp.Packet {
+// The two request types the library matches responses for: odd transaction ids are connect requests, even ones
+// createStream requests. size > 0 adds that many bytes of arguments (strings of at most 30000 bytes in an object).
+func isConnect(t int) bool { return t%2 == 1 }
+
+func sizedObject(size int) *amf0.Object {
+	o := amf0.NewObject()
+	for k := 0; size > 0; k++ {
+		n := size
+		if n > 30000 {
+			n = 30000
+		}
+		o.Set(fmt.Sprintf("a%d", k), amf0.NewString(strings.Repeat(string(rune('a'+k%26)), n)))
+		size -= n
+	}
+	return o
+}
+
+func sizedRequest(t, size int) rtmp.Packet {
+	if isConnect(t) {
+		p := rtmp.NewConnectAppPacket()
+		p.TransactionID = amf0.Number(float64(t))
+		p.CommandObject.Set("tcUrl", amf0.NewString("rtmp://localhost/live"))
+		if size > 0 {
+			p.Args = sizedObject(size)
+		}
+		return p
+	}
 	p := rtmp.NewCreateStreamPacket()
 	p.TransactionID = amf0.Number(float64(t))
+	if size > 0 {
+		p.CommandObject = sizedObject(size)
+	}
+	return p
+}
+
+func request(t int) rtmp.Packet { return sizedRequest(t, 0) }
+
+func response(t int) rtmp.Packet {
+	if isConnect(t) {
+		p := rtmp.NewConnectAppResPacket(amf0.Number(float64(t)))
+		p.Args = amf0.NewObject()
+		p.Args.Set("code", amf0.NewString("NetConnection.Connect.Success"))
+		return p
+	}
+	p := rtmp.NewCreateStreamResPacket(amf0.Number(float64(t)))
+	p.StreamID = 1
 	return p
 }
 
@@ -66,10 +113,85 @@ func readOne(p *rtmp.Protocol) outcome {
 	if err != nil {
 		return outcome{tid: tid, res: "fail", err: err}
 	}
-	if r, ok := pkt.(*rtmp.CreateStreamResPacket); !ok || float64(r.TransactionID) != tid {
-		return outcome{tid: tid, res: "wrongtype", err: fmt.Errorf("decoded as %T", pkt)}
+	switch r := pkt.(type) {
+	case *rtmp.CreateStreamResPacket:
+		if !isConnect(int(tid)) && float64(r.TransactionID) == tid {
+			return outcome{tid: tid, res: "ok"}
+		}
+	case *rtmp.ConnectAppResPacket:
+		if isConnect(int(tid)) && float64(r.TransactionID) == tid {
+			return outcome{tid: tid, res: "ok"}
+		}
 	}
-	return outcome{tid: tid, res: "ok"}
+	return outcome{tid: tid, res: "wrongtype", err: fmt.Errorf("decoded as %T", pkt)}
+}
+
+// The (size, chunk size) matrix for multi-part requests of schedules that do not carry their own.
+var matrixSizes = []int{3000, 4096, 4200, 8300, 12500, 20000, 70000, 140000, 300000}
+var matrixChunks = []int{128, 4096, 65536, 1048576}
+
+// arrival is one transport write of the library parked in the gate.
+type arrival struct {
+	call     int
+	n        int
+	complete []int // transaction ids of the requests that are complete in the transport with this write
+}
+
+// writerCtl drives the writer goroutine of a forced schedule through the gated transport.
+type writerCtl struct {
+	arrive  chan arrival
+	release chan error
+	wcmd    chan rtmp.Packet
+	wret    chan error
+
+	parked   bool // a transport write is held in the gate
+	complete bool // ... and with it the current request is complete in the transport
+	writes   int  // transport writes of the current request seen so far
+	bytes    int
+}
+
+func has(l []int, t int) bool {
+	for _, x := range l {
+		if x == t {
+			return true
+		}
+	}
+	return false
+}
+
+// next waits for the next transport write of the running WritePacket (returned=false) or for its return.
+func (w *writerCtl) next(t int) (returned bool, err error, stall bool) {
+	select {
+	case a := <-w.arrive:
+		w.parked, w.complete = true, has(a.complete, t)
+		w.writes++
+		w.bytes += a.n
+		return false, nil, false
+	case err = <-w.wret:
+		return true, err, false
+	case <-time.After(stepTimeout):
+		return false, nil, true
+	}
+}
+
+func (w *writerCtl) let(err error) {
+	w.release <- err
+	w.parked = false
+}
+
+// passThrough runs one WritePacket to its end without holding any of its transport writes (connection set-up).
+func (w *writerCtl) passThrough(p rtmp.Packet) error {
+	w.wcmd <- p
+	for {
+		select {
+		case <-w.arrive:
+			w.release <- nil
+		case err := <-w.wret:
+			return err
+		case <-time.After(stepTimeout):
+			return fmt.Errorf("stall")
+		}
+	}
 }
 
 func init() {
@@ -78,23 +200,38 @@ func init() {
 		if err := json.Unmarshal(raw, &cs); err != nil {
 			panic(err)
 		}
+		h := rp.ContentHash(raw) + c.Seed*7919
+		size, chunk := cs.Size, cs.Chunk
+		if size == 0 {
+			size = matrixSizes[h%len(matrixSizes)]
+		}
+		if chunk == 0 {
+			chunk = matrixChunks[(h/len(matrixSizes))%len(matrixChunks)]
+		}
+		partsOf := map[int][]int{} // id -> parts of the requests using it, in order
+		for k, t := range cs.Reqs {
+			n := 1
+			if k < len(cs.Parts) {
+				n = cs.Parts[k]
+			}
+			partsOf[t] = append(partsOf[t], n)
+		}
+
 		a, b := transport.NewPair()
 		pa := rtmp.NewProtocol(a)
 		peer := rtmp.NewProtocol(b) // only used to serialise the peer's responses onto A's input
 
-		arrive := make(chan int, 16)
-		release := make(chan error, 16)
+		w := &writerCtl{arrive: make(chan arrival, 16), release: make(chan error, 16), wcmd: make(chan rtmp.Packet, 16), wret: make(chan error, 16)}
+		tr := newTracker()
+		arrive, release, wcmd, wret := w.arrive, w.release, w.wcmd, w.wret
 		a.Out.WriteGate = func(call int, p []byte) error {
-			arrive <- call
+			arrive <- arrival{call: call, n: len(p), complete: tr.completedRequests(p)}
 			return <-release // nil, or the transport's error for a write the schedule makes fail
 		}
 		injected := &transport.ErrInjected{What: "transport write of a request"}
-		failing := false
-		wcmd := make(chan int, 16)
-		wret := make(chan error, 16)
 		go func() {
-			for t := range wcmd {
-				wret <- pa.WritePacket(request(t), 0)
+			for p := range wcmd {
+				wret <- pa.WritePacket(p, 0)
 			}
 		}()
 		rcmd := make(chan struct{}, 16)
@@ -105,59 +242,123 @@ func init() {
 			}
 		}()
 		defer func() {
-			close(wcmd)
+			close(w.wcmd)
 			close(rcmd)
 			// unblock anything still parked so the goroutines can end
 			for k := 0; k < 8; k++ {
 				select {
-				case release <- nil:
+				case w.release <- nil:
 				default:
 				}
 			}
 			b.Out.CloseWrite()
 		}()
 
+		where := func(k int) string {
+			return fmt.Sprintf("step %d of schedule %s(output chunk size %d, sized requests carry %d bytes of arguments)", k, compact(cs.Sched[:k+1]), chunk, size)
+		}
+		// history: the output chunk size in force
+		if chunk != 128 {
+			scs := rtmp.NewSetChunkSize()
+			scs.ChunkSize = uint32(chunk)
+			if err := w.passThrough(scs); err != nil {
+				return rp.Fail(i, "WritePacket(SetChunkSize %d) failed: %v", chunk, err)
+			}
+		}
+
 		nres := 0
+		failing, returned := false, false
+		var retErr error
 		for k, ev := range cs.Sched {
 			var label string
-			var t int
+			var t, flag int
 			json.Unmarshal(ev[0], &label)
 			json.Unmarshal(ev[1], &t)
+			if len(ev) > 2 {
+				json.Unmarshal(ev[2], &flag)
+			}
 			switch label {
 			case "call":
-				wcmd <- t
+				n := 1
+				if l := partsOf[t]; len(l) > 0 {
+					n, partsOf[t] = l[0], l[1:]
+				}
+				sz := 0
+				if n > 1 {
+					sz = size
+				}
+				w.parked, w.complete, w.writes, w.bytes = false, false, 0, 0
+				failing, returned, retErr = false, false, nil
+				w.wcmd <- sizedRequest(t, sz)
 			case "register":
-				// not observable: the code cannot be paused between marshal, register and the transport write
-			case "twrite", "twritefail":
-				failing = label == "twritefail"
-				select {
-				case <-arrive:
-				case err := <-wret:
-					return rp.Fail(i, "step %d: WritePacket(tid %d) returned (%v) without handing the request to the transport", k, t, err)
-				case <-time.After(stepTimeout):
-					return rp.Fail(i, "stall: step %d: WritePacket(tid %d) never reached the transport", k, t)
-				}
-			case "return":
-				if failing {
-					release <- injected
-				} else {
-					release <- nil
-				}
-				select {
-				case err := <-wret:
-					if failing {
-						if err == nil {
-							return rp.Fail(i, "step %d: WritePacket(tid %d) returned nil although the transport refused the request", k, t)
-						}
-						failing = false
-					} else if err != nil {
-						return rp.Fail(i, "step %d: WritePacket(tid %d) failed: %v", k, t, err)
+				// not observable: the code cannot be paused between marshal, register and the first transport write
+			case "twrite":
+				// The model's parts are mapped onto the transport writes the library really makes: a non-completing part
+				// is the next write that leaves the request incomplete (none, if the library needs fewer writes than the
+				// model has parts); the completing part (flag 1) is the write with which the independent chunk stream
+				// parser has the whole request - every write before it is let through.
+				for !(w.parked && w.complete) {
+					if w.parked {
+						w.let(nil)
 					}
-				case <-time.After(stepTimeout):
-					return rp.Fail(i, "stall: step %d: WritePacket(tid %d) did not return", k, t)
+					ret, err, stall := w.next(t)
+					if stall {
+						return rp.Fail(i, "stall: %s: WritePacket(tid %d) neither reached the transport nor returned", where(k), t)
+					}
+					if ret {
+						if err != nil {
+							return rp.Fail(i, "%s: WritePacket(tid %d) failed: %v", where(k), t, err)
+						}
+						return rp.Fail(i, "%s: WritePacket(tid %d) returned nil after %d transport writes (%d bytes), but the request is not complete in the transport (independent chunk stream parser)",
+							where(k), t, w.writes, w.bytes)
+					}
+					if flag == 0 {
+						break
+					}
+				}
+			case "twritefail":
+				// the transport refuses the next write of the request
+				if w.parked && w.complete {
+					// the library needed fewer transport writes than the model: this schedule cannot be realised with it
+					return rp.Result{OK: true, Nontriv: false, Info: "not realisable: the request was complete in the transport before the failing part"}
+				}
+				if w.parked {
+					w.let(nil)
+				}
+				ret, err, stall := w.next(t)
+				if stall {
+					return rp.Fail(i, "stall: %s: WritePacket(tid %d) neither reached the transport nor returned", where(k), t)
+				}
+				if ret {
+					return rp.Fail(i, "%s: WritePacket(tid %d) returned (%v) without handing the rest of the request to the transport", where(k), t, err)
+				}
+				if w.complete {
+					return rp.Result{OK: true, Nontriv: false, Info: "not realisable: the failing part would be the completing write"}
+				}
+				failing = true
+			case "return":
+				for !returned {
+					if w.parked {
+						if failing {
+							w.let(injected)
+						} else {
+							w.let(nil)
+						}
+					}
+					ret, err, stall := w.next(t)
+					if stall {
+						return rp.Fail(i, "stall: %s: WritePacket(tid %d) did not return", where(k), t)
+					}
+					returned, retErr = ret, err
+				}
+				if failing && retErr == nil {
+					return rp.Fail(i, "%s: WritePacket(tid %d) returned nil although the transport refused a part of the request", where(k), t)
+				}
+				if !failing && retErr != nil {
+					return rp.Fail(i, "%s: WritePacket(tid %d) failed: %v", where(k), t, retErr)
 				}
 			case "respond":
-				if err := peer.WritePacket(rtmp.NewCreateStreamResPacket(amf0.Number(float64(t))), 0); err != nil {
+				if err := peer.WritePacket(response(t), 0); err != nil {
 					rp.Bug("peer write failed: %v", err)
 				}
 			case "read":
@@ -167,7 +368,7 @@ func init() {
 				select {
 				case got = <-rret:
 				case <-time.After(stepTimeout):
-					return rp.Fail(i, "stall: step %d: the reader did not return for response %d", k, t)
+					return rp.Fail(i, "stall: %s: the reader did not return for response %d", where(k), t)
 				}
 				var wt int
 				var wres string
@@ -175,11 +376,11 @@ func init() {
 				json.Unmarshal(cs.Results[nres][1], &wres)
 				nres++
 				if got.tid != float64(wt) {
-					return rp.Fail(i, "step %d: reader got response for tid %v, schedule says %d", k, got.tid, wt)
+					return rp.Fail(i, "%s: reader got response for tid %v, schedule says %d", where(k), got.tid, wt)
 				}
 				if got.res != wres {
-					return rp.Result{OK: false, What: fmt.Sprintf("step %d of schedule %s: response to request %d (handed to the transport before the response was sent) decoded as %q (%v), specification says %q",
-						k, compact(cs.Sched[:k+1]), wt, got.res, got.err, wres)}
+					return rp.Result{OK: false, What: fmt.Sprintf("%s: response to request %d (complete in the transport before the response was sent) decoded as %q (%v), specification says %q",
+						where(k), wt, got.res, got.err, wres)}
 				}
 			default:
 				rp.Bug("unknown schedule label %q", label)
@@ -197,21 +398,29 @@ func init() {
 				return rp.Fail(i, "after the schedule request %v is still outstanding, specification says none", t)
 			}
 		}
-		return rp.Result{OK: true}
+		return rp.Result{OK: true, Nontriv: true}
 	}
 
 	batchRegistry["stress"] = stress
+	batchRegistry["aim"] = aim
+	batchRegistry["aim_race"] = aim // the same driver, built with the race detector
 }
 
 func compact(s [][]json.RawMessage) string {
 	out := ""
 	for _, e := range s {
 		var l string
-		var t int
+		var t, flag int
 		json.Unmarshal(e[0], &l)
 		json.Unmarshal(e[1], &t)
+		if len(e) > 2 {
+			json.Unmarshal(e[2], &flag)
+		}
 		if l == "register" || l == "read" {
 			continue
+		}
+		if l == "twrite" && flag == 0 {
+			l = "twrite-part"
 		}
 		out += fmt.Sprintf("%s(%d) ", l, t)
 	}
@@ -229,12 +438,14 @@ type stressCase struct {
 	Runs     int `json:"runs"`
 	N        int `json:"n"`
 	InGatePc int `json:"ingate_pc"`
+	Size     int `json:"size"`  // > 0: every request carries that many bytes of arguments
+	Chunk    int `json:"chunk"` // > 0: output chunk size announced before the first request
 }
 
 // stress runs free-running writer/reader goroutines and records the events for trace validation.
 func stress(c *rp.Ctx, cases []json.RawMessage) []rp.Result {
 	var results []rp.Result
-	f, err := os.Create(filepath.Join(c.Dir, "trace.ndjson"))
+	f, err := os.Create(filepath.Join(traceDir(c), "trace.ndjson"))
 	if err != nil {
 		rp.Bug("%v", err)
 	}
@@ -278,23 +489,38 @@ func stressRun(sc stressCase, rng *rand.Rand) ([]event, error) {
 		inGate[k] = rng.Intn(100) < sc.InGatePc
 	}
 	late := make(chan int, sc.N)
+	stop := make(chan struct{})
 	respond := func(t int) {
 		mu.Lock()
+		defer mu.Unlock()
+		select {
+		case <-stop:
+			return
+		default:
+		}
 		record(event{Ev: "respond", T: t})
-		if err := peer.WritePacket(rtmp.NewCreateStreamResPacket(amf0.Number(float64(t))), 0); err != nil {
+		if err := peer.WritePacket(response(t), 0); err != nil {
 			rp.Bug("peer write failed: %v", err)
 		}
-		mu.Unlock()
 	}
+	// the peer has a request when the chunk stream it received so far contains the complete message,
+	// whatever the number of transport writes that took
+	tr := newTracker()
+	complete := make([]bool, sc.N+2)
 	a.Out.WriteGate = func(call int, p []byte) error {
-		t := call + 2
-		mu.Lock()
-		record(event{Ev: "twrite", T: t})
-		mu.Unlock()
-		if inGate[call] {
-			respond(t) // the peer answers before the writer's call has returned
-		} else {
-			late <- t
+		for _, t := range tr.completedRequests(p) {
+			if t < 2 || t >= sc.N+2 || complete[t] {
+				continue
+			}
+			mu.Lock()
+			complete[t] = true
+			record(event{Ev: "twrite", T: t})
+			mu.Unlock()
+			if inGate[t-2] {
+				respond(t) // the peer answers before the writer's call has returned
+			} else {
+				late <- t
+			}
 		}
 		return nil
 	}
@@ -304,15 +530,28 @@ func stressRun(sc stressCase, rng *rand.Rand) ([]event, error) {
 	go func() { // writer
 		defer wg.Done()
 		defer close(late)
+		if sc.Chunk > 0 {
+			scs := rtmp.NewSetChunkSize()
+			scs.ChunkSize = uint32(sc.Chunk)
+			if err := pa.WritePacket(scs, 0); err != nil {
+				werr <- fmt.Errorf("WritePacket(SetChunkSize %d): %v", sc.Chunk, err)
+				return
+			}
+		}
 		for k := 0; k < sc.N; k++ {
 			t := k + 2
-			if err := pa.WritePacket(request(t), 0); err != nil {
+			if err := pa.WritePacket(sizedRequest(t, sc.Size), 0); err != nil {
 				werr <- fmt.Errorf("WritePacket(tid %d): %v", t, err)
 				return
 			}
 			mu.Lock()
+			ok := complete[t]
 			record(event{Ev: "return", T: t})
 			mu.Unlock()
+			if !ok {
+				werr <- fmt.Errorf("WritePacket(tid %d) returned nil, but the request is not complete in the transport (independent chunk stream parser)", t)
+				return
+			}
 		}
 	}()
 	go func() { // late peer
@@ -327,7 +566,11 @@ func stressRun(sc stressCase, rng *rand.Rand) ([]event, error) {
 		for k := 0; k < sc.N; k++ {
 			o := readOne(pa)
 			if o.res == "readerr" {
-				rerr = fmt.Errorf("reader: %v", o.err)
+				select {
+				case <-stop: // the writer gave up: the connection was closed under the reader
+				default:
+					rerr = fmt.Errorf("reader: %v", o.err)
+				}
 				return
 			}
 			res := o.res
@@ -341,10 +584,23 @@ func stressRun(sc stressCase, rng *rand.Rand) ([]event, error) {
 	}()
 	done := make(chan struct{})
 	go func() { wg.Wait(); close(done) }()
+	var werr1 error
 	select {
 	case <-done:
+	case werr1 = <-werr:
+		// no more requests: end the reader
+		mu.Lock()
+		close(stop)
+		b.Out.CloseWrite()
+		mu.Unlock()
+		<-done
 	case <-time.After(60 * time.Second):
-		return log, fmt.Errorf("stall: the run did not finish")
+		mu.Lock()
+		defer mu.Unlock()
+		return append([]event(nil), log...), fmt.Errorf("stall: the run did not finish")
+	}
+	if werr1 != nil {
+		return log, werr1
 	}
 	select {
 	case err := <-werr:
@@ -352,4 +608,16 @@ func stressRun(sc stressCase, rng *rand.Rand) ([]event, error) {
 	default:
 	}
 	return log, rerr
+}
+
+// traceDir is where the recorded runs go: the -dir of the stage, a scratch directory when a single case is replayed.
+func traceDir(c *rp.Ctx) string {
+	if c.Dir != "" {
+		return c.Dir
+	}
+	d, err := os.MkdirTemp("", "c04trace")
+	if err != nil {
+		rp.Bug("%v", err)
+	}
+	return d
 }
